@@ -63,6 +63,7 @@ public:
   virtual bool synthesize_this_parameter();
   virtual bool separate_overloading();
   virtual bool wrap_global_functions();
+  virtual bool is_remap_wrapped(FunctionRemap *remap);
 
   void get_function_remaps(std::vector<FunctionRemap *> &remaps);
 
